@@ -52,15 +52,29 @@ def run_driver(scenarios, procs=16):
     chunks = [scenarios[i::procs] for i in range(procs)]
     chunks = [c for c in chunks if c]
 
-    def work(chunk):
+    def run(chunk, limit):
         inp = "\n".join(json.dumps(s) for s in chunk) + "\n"
         try:
-            r = subprocess.run([DRIVER], input=inp, capture_output=True, text=True, timeout=float(os.environ.get("VERIF_DRIVER_TIMEOUT", 1200)))
+            r = subprocess.run([DRIVER], input=inp, capture_output=True, text=True, timeout=limit)
         except subprocess.TimeoutExpired:
-            raise RuntimeError(f"driver gave no answer within its time limit on a batch of {len(chunk)} scenarios")
+            return None, f"no answer within {limit:.0f} s"
         if r.returncode != 0:
-            raise RuntimeError(f"driver exit {r.returncode}: {r.stderr[:400]}")
-        return [json.loads(line) for line in r.stdout.splitlines() if line.strip()]
+            return None, f"driver exit {r.returncode}: {r.stderr[:300]}"
+        return [json.loads(line) for line in r.stdout.splitlines() if line.strip()], None
+
+    def work(chunk):
+        res, err = run(chunk, float(os.environ.get("VERIF_DRIVER_TIMEOUT", 1200)))
+        if res is not None:
+            return res
+        if len(chunk) == 1:
+            return [{"id": chunk[0]["id"], "error": err}]
+        # the model died on some scenario of the batch (a broken implementation under test can lead the generators
+        # to inputs the unchanged one never produces): isolate it, answer the others
+        out = []
+        for s in chunk:
+            res, err = run([s], 90.0)
+            out.extend(res if res is not None else [{"id": s["id"], "error": err}])
+        return out
 
     out = {}
     with ThreadPoolExecutor(max_workers=len(chunks)) as ex:
